@@ -101,7 +101,7 @@ func (t *treeSimple) output(w io.Writer, r io.Reader, cfg *config) error {
 }
 
 func (t *treeSimple) outputProgrammably(w io.Writer, root *Node, cfg *config) error {
-	if cfg.encode != encodeDefault {
+	if cfg.encode != encodeDefault || cfg.dryrun {
 		if err := t.grower.grow([]*Node{root}); err != nil {
 			return err
 		}
